@@ -67,6 +67,8 @@ func c12Families() []gram.Named {
 		{"type-with-rules", typed(gram.Parse("S", abc, "S: TA X ; X: TB"), "X")},
 		{"start-undefined", gram.Parse("Z", abc, "S: TA")},
 		{"one-of-two-alternatives-unproductive", gram.Parse("S", abc, "S: A | TB ; A: A TA")},
+		{"default-start-symbol", gram.Parse("", abc, "start: TA S ; S: TB | S TB")},
+		{"default-start-symbol-recursive", gram.Parse("", abc, "start: start TA | TB")},
 		{"all-terminal-chain", gram.Parse("S", abc, "S: A TA ; A: B TB ; B: TC")},
 	}
 }
